@@ -55,6 +55,11 @@ M = [
     ("mh_proposal_ratio_inverted", "C02", "mchap/calling/mcmc.py",
      "lproposals_array[a] = np.log(allele_copies_i / allele_copies)", "lproposals_array[a] = np.log(allele_copies / allele_copies_i)",
      "call MH proposal ratio inverted"),
+    ("ped_cache_float32_typed_dict", "C18", "mchap/pedigree/mcmc.py",
+     ["from numba import njit\n", "    llk_cache = {}\n    llk_cache[(-1, -1)] = np.nan\n"],
+     ["from numba import njit, types\nfrom numba.typed import Dict\n\n_KEY = types.UniTuple(types.int64, 2)\n_VAL = types.float32\n",
+      "    llk_cache = Dict.empty(key_type=_KEY, value_type=_VAL)\n"],
+     "the pedigree sampler's built-in likelihood cache as a typed dict of float32: invisible interpreted (typed.Dict degrades to dict), seen only by the compiled cache-free-twin probe"),
     ("call_cache_unsorted_key", "C09", "mchap/calling/likelihood.py",
      "key = genotype_alleles_as_index(np.sort(genotype_alleles))", "key = genotype_alleles_as_index(genotype_alleles)",
      "call cache keyed on the unsorted genotype (collisions between different multisets)"),
@@ -154,9 +159,16 @@ def run_one(m, runs, keep):
         subprocess.run(["rsync", "-a", "--exclude", ".git", "--exclude", "__pycache__", REPO + "/", dst + "/"], check=True)
         p = os.path.join(dst, rel)
         s = open(p).read()
-        if s.count(old) != 1:
+        if not isinstance(old, (list, tuple)) and s.count(old) != 1:
             return {"name": name, "property": prop, "status": "pattern-not-found (%d)" % s.count(old)}
-        open(p, "w").write(s.replace(old, new))
+        if isinstance(old, (list, tuple)):  # several edits in one file
+            for o_, n_ in zip(old, new):
+                if o_ not in s:
+                    raise SystemExit("mutant %s: text to replace not found" % name)
+                s = s.replace(o_, n_)
+            open(p, "w").write(s)
+        else:
+            open(p, "w").write(s.replace(old, new))
         env = dict(os.environ, VERIF_REPO=dst, VERIF_CACHE_BASE=os.path.join(tmp, "cache"))
         cmd = [os.path.join(VERIF, "check"), prop, "--no-evidence"] + (["--runs", str(runs)] if runs else [])
         r = subprocess.run(cmd, capture_output=True, text=True, env=env, timeout=3600)
